@@ -332,4 +332,17 @@ def d4(cx: Cx, ob: Ob) -> None:
     if hdr_w and rows_w and hdr_w[0][1].line > rows_w[0][1].line:
         ob.violate(fn.qualname, where(fn, hdr_w[0][1].line), "the header row is written after the data rows", detail="header-order")
     if not hdr_w:
-        ob.violate(fn.qualname, fn.where, "the header row that was read is never written back", detail="header-lost")
+        # does the row taken by next(reader) reach any write call?
+        nexts = [c for c, _, _ in s.calls("next")]
+        flows = False
+        for c, ev, ctx in s.calls():
+            if callee_name(c) in ("writerow", "writerows") and any(any(y == n for y in subterms(c)) for n in nexts):
+                flows = True
+            if callee_name(c) in ("writerow", "writerows"):
+                for x in subterms(c):
+                    if op(x) == "new" and any(any(y == n for y in subterms(x)) for n in nexts):
+                        flows = True
+        if flows:
+            ob.site(f"{fn.where} {fn.qualname}", "header row reaches a write call")
+        elif nexts:
+            ob.violate(fn.qualname, fn.where, "the header row that was read is never written back", detail="header-lost")
